@@ -5,10 +5,10 @@ import os
 import core
 from core import LeanDriver, canon
 import lib_store as L
-from gen import storeconsts, storeflow
+from gen import storeconsts, storeflow, importids
 
 ID = "C04"
-GENERATORS = [storeconsts.generate, storeflow.generate]
+GENERATORS = [storeconsts.generate, storeflow.generate, importids.generate]
 LEAN_MODULES = ["FimVerif.Proofs.C04"]
 P = "FimVerif.C04."
 THEOREMS = [P + t for t in ("flow_is_modelled", "inv_init", "inv_step", "inv_reachable", "ids_distinct_reachable", "step_import_wf",
@@ -18,7 +18,8 @@ THEOREMS = [P + t for t in ("flow_is_modelled", "inv_init", "inv_step", "inv_rea
                               "dinv_init", "dinv_step", "dinv_reachable", "dids_distinct_reachable", "dframe",
                               "ddelall_keeps_counters", "dclone_onto_existing_skips", "dclone_eq", "dhomed_reachable",
                               "dclone_eq_reachable", "dclone_independent", "failed_call_changes_nothing",
-                              "refused_calls_are_invisible")]
+                              "refused_calls_are_invisible", "import_targets_are_modelled", "import_entry_frame",
+                              "direct_import_entry_frame")]
 TRUSTED_BASE = [
     "Model/Store.lean, Model/DStore.lean mirror NetworkXGraphStorage / NetworkXGraphStorageDisjoint / NetworkXPropertyGraph "
     "method by method (hand-written; checked differentially after every operation: reply, whole store by internal id, start_id)",
@@ -34,6 +35,15 @@ TRUSTED_BASE = [
     "locks are not modelled (C20): the harness replaces the stores' threading.Lock by a counting stand-in (lib_store.TolerantLock) "
     "so that the disjoint store's double release on a duplicate graph id (C20's defect) does not mask what an import did",
     "the disjoint model treats a missing dictionary entry and an empty graph alike (true of the code since /repo 7bd45c1)",
+    "importer entry points: the models know an import as a store operation carrying its graph id; a call of "
+    "import_graph_from_string[_direct] / import_graph_from_file[_direct] on a document is lowered to that operation on the id "
+    "Model/ImportEntry.lean `target` names (the caller's id; for the direct entry points the id the DOCUMENT names) - hand-written, "
+    "tied by gen/importids.py (behavioural probes: named / document / id-less targets incl. load-rewrite-load of one path; theorem "
+    "import_targets_are_modelled) and by running every other history's imports through the entry points themselves on GraphML / JSON "
+    "text (strings and one or two work files per history that are overwritten before each load; lib_store.Backend entry='importer'); "
+    "networkx's GraphML / node-link writers and readers are trusted to carry the documents the harness writes (checked: a document "
+    "that does not read back as the request's graph is handed to the store's own entry point instead); an empty document, and a "
+    "direct import whose nodes do not all name the addressed graph, are only driven through the store's entry point",
     "a graph HANDLE is stateless in the models: Store.step / DStore.step take the graph id inside the operation and the store, "
     "nothing else - whatever a NetworkXPropertyGraph object keeps between calls (caches, memos, anything left behind by a call "
     "that failed) has no counterpart.  Checked, not assumed: the implementation side of the correspondence and of the oracle is "
@@ -64,7 +74,13 @@ RULE = ("corpus first, then operation histories (<= 30 ops) over 2-4 graph ids a
         "differ, merge_nodes refused for each reason - KeyError after both lookups, node missing on either side, other graph missing, "
         "the graph itself - refused updates / unsets / deletes / add_node) followed by updates, relinks and deletes through the same "
         "handle objects; plus all continuations of depth 3 (shared, one handle object per id) / 2 (two objects per id; disjoint) of a "
-        "graph-and-diverged-clone prefix over an 18-operation alphabet of refused and accepted merges and node operations")
+        "graph-and-diverged-clone prefix over an 18-operation alphabet of refused and accepted merges and node operations; "
+        "every other history (and every history of the save / load kind: every fifth history opens with documents of two or three "
+        "graphs, later versions of them, a document of one graph loaded under another's id) runs its imports through the importer's "
+        "entry points on a document - string or work file (one or two paths per history, overwritten before each load), GraphML or "
+        "JSON, direct or under the caller's id - the others through the store's add_graph / add_graph_direct with colliding node keys; "
+        "the returned handle must be for the addressed graph; plus all histories of depth 3 / 4 over 7 operations (documents of two "
+        "graphs, two versions, direct and named, add_node, delete_graph) through ONE work file, in both formats")
 
 CORPUS = os.path.join(core.CORPUS_DIR, "C04")
 
@@ -135,11 +151,49 @@ def refused_scenario(rng, gids, nids):
     return copy.deepcopy(h)
 
 
+def entry_mode(i):
+    """which entry point serves the import requests of history number i (lib_store.Backend `entry`): the store's own
+    add_graph / add_graph_direct on an nx.Graph with colliding node keys, or the importer's entry points on a document
+    (string / work file, GraphML / JSON)"""
+    return "importer" if i % 2 == 1 or i % 5 == 2 else "store"
+
+
+def workfile_scenario(rng, gids, nids):
+    """save / load cycles: documents naming different graphs, and later versions of the same graph, are imported one after
+    another - directly (the DOCUMENT names its graph: import_graph_from_file_direct / _string_direct) and under a caller's
+    id - while the graphs loaded earlier stay alive; with Backend entry "importer" the file imports of one history go
+    through one or two work files that are overwritten each time (load, rewrite, load)"""
+    gs = list(gids)
+    rng.shuffle(gs)
+    a, b, c = gs[0], gs[1], gs[2 % len(gs)]
+
+    def doc(g, n, first=0, direct=True):
+        nodes = [{L.NODE_ID: nids[(first + i) % len(nids)] if i < len(nids) else "m%d" % i, L.CLASS: rng.choice(L.CLASSES),
+                  "Name": "%s%d" % (g, i)} for i in range(n)]
+        if direct:
+            for x in nodes:
+                x[L.GRAPH_ID] = g
+        return {"nodes": nodes, "edges": [[i, i + 1, {L.CLASS: rng.choice(L.RELS)}] for i in range(n - 1)]}
+
+    h = [["add_graph_direct", a, doc(a, rng.randint(1, 3))], ["add_graph_direct", b, doc(b, rng.randint(1, 4), 1)]]
+    more = [["add_graph_direct", a, doc(a, rng.randint(1, 4))],                # a later version of the first document
+            ["add_graph", c, doc(c, rng.randint(1, 3), 2, direct=False)],      # a document loaded under a caller's id
+            ["add_graph_direct", c, doc(c, rng.randint(1, 3), 1)],
+            ["add_graph", a, doc(b, rng.randint(1, 3), 0, direct=rng.random() < 0.5)],   # a document of b loaded as a
+            ["add_node", a, "x0", rng.choice(L.CLASSES), None], ["delete_graph", b], ["clone", a, c],
+            ["add_graph_direct", b, doc(b, rng.randint(1, 2), 3)], ["update_nodes_property", b, "p", "y"],
+            ["list_all_node_ids", a], ["list_all_node_ids", b], ["graph_exists", c]]
+    rng.shuffle(more)
+    import copy
+    return copy.deepcopy(h + more[:rng.randint(2, 7)])
+
+
 def histories(ctx, tag, n, length):
-    """[(flavours, history, handle mode)]"""
+    """[(flavours, history, handle mode, entry mode, entry plan)]"""
     rng = ctx.sub_rng(tag)
     rng2 = ctx.sub_rng(tag + "-refused")
-    hs = [(c["flavours"], c["history"], c.get("handles", "one")) for c in load_corpus()]
+    rng3 = ctx.sub_rng(tag + "-workfile")
+    hs = [(c["flavours"], c["history"], c.get("handles", "one"), c.get("entry", "store"), c.get("plan")) for c in load_corpus()]
     for i in range(n):
         h = L.gen_history(rng, rng.randint(6, length), ngraphs=rng.choice([2, 3, 3, 4]),
                           scenario=0.35, merge=True, keys=0.05, delall=0.02)
@@ -151,21 +205,35 @@ def histories(ctx, tag, n, length):
             for r in pre:
                 sh.note(r)
             h = pre + [sh.aim(rng2, L.gen_op(rng2, gids, ["n1", "n2", "n3", "n4"], merge=True), gids) for _ in range(rng2.randint(0, 8))]
-        hs.append((["shared", "disjoint"], h, handle_mode(i)))
+        if i % 5 == 2:
+            # ... and every fifth one with save / load cycles of documents (own random stream again)
+            gids = ["g1", "g2", "g3"]
+            pre = workfile_scenario(rng3, gids, ["n1", "n2", "n3", "n4"])
+            sh = L.Shadow()
+            for r in pre:
+                sh.note(r)
+            h = pre + [sh.aim(rng3, L.gen_op(rng3, gids, ["n1", "n2", "n3", "n4"], merge=True), gids) for _ in range(rng3.randint(0, 8))]
+        hs.append((["shared", "disjoint"], h, handle_mode(i), entry_mode(i), None))
     return hs
 
 
 # ------------------------------------------------------------------------------------------
 # correspondence
 
-def run_impl(flavour, h, seed, handles="one"):
+def run_impl(flavour, h, seed, handles="one", entry="store", plan=None, res=None):
     import random
-    be = L.Backend(flavour, handles=handles, hseed=seed)
+    be = L.Backend(flavour, handles=handles, hseed=seed, entry=entry, plan=plan)
     be.import_keys = colliding_keys(random.Random(seed))
     out = []
-    for req in h:
-        rep = be.apply(req)
-        out.append((L.canon_reply(req[0], rep), L.canon_raw(be.raw())))
+    try:
+        for req in h:
+            rep = be.apply(req)
+            out.append((L.canon_reply(req[0], rep), L.canon_raw(be.raw())))
+        if res is not None:
+            for k, via, fmt, slot in be.imports:
+                res.count("%s:import-via:%s:%s:%s" % (flavour[0].upper(), h[k][0], via, fmt))
+    finally:
+        be.cleanup()
     return out
 
 
@@ -173,7 +241,7 @@ def correspondence(ctx, res):
     hs = histories(ctx, "corr", ctx.scale(150, 1500), 30)
     for flavour, tagc in (("shared", "S"), ("disjoint", "D")):
         lines, meta = [], []
-        for hi, (flv, h, hm) in enumerate(hs):
+        for hi, (flv, h, hm, em, pl) in enumerate(hs):
             if flavour not in flv:
                 continue
             lines.append(json.dumps([tagc, "reset"]))
@@ -185,11 +253,14 @@ def correspondence(ctx, res):
                 meta.append((hi, k, "snap"))
         replies = LeanDriver("C04").run(lines)
         impl = {}
-        for hi, (flv, h, hm) in enumerate(hs):
+        for hi, (flv, h, hm, em, pl) in enumerate(hs):
             if flavour in flv:
-                # the model's handle is the graph id; the implementation is driven through handle OBJECTS kept across calls
-                impl[hi] = run_impl(flavour, h, hi, hm)
+                # the model's handle is the graph id; the implementation is driven through handle OBJECTS kept across calls.
+                # The model's import is handed a graph and a graph id; the implementation's is, in every other history, handed
+                # a document (string or rewritten work file) through the importer's entry points
+                impl[hi] = run_impl(flavour, h, hi, hm, em, pl, res)
                 res.count("%s:handles:%s" % (tagc, hm))
+                res.count("%s:entry:%s" % (tagc, em))
         bad = set()
         for m, line in zip(meta, replies):
             if m is None:
@@ -211,9 +282,10 @@ def correspondence(ctx, res):
                 got = L.canon_raw(rep[1]) if rep[0] == "ok" else rep
             if canon(got) != canon(exp):
                 bad.add(hi)
-                res.disagreements.append({"case": {"flavour": flavour, "history": h[:k + 1], "handles": hs[hi][2], "seed": hi},
+                res.disagreements.append({"case": {"flavour": flavour, "history": h[:k + 1], "handles": hs[hi][2], "seed": hi,
+                                                   "entry": hs[hi][3], "plan": hs[hi][4]},
                                           "at": [k, what], "impl": exp, "model": got})
-        for hi, (flv, h, hm) in enumerate(hs):
+        for hi, (flv, h, hm, em, pl) in enumerate(hs):
             if flavour in flv and nontrivial(impl[hi]):
                 res.nontrivial.add(flavour + L.kind_seq(h))
     res.sample({"history": hs[-1][1][:6], "note": "each request is followed by a whole-store snapshot on both sides"})
@@ -260,17 +332,25 @@ def drift_queries(g):
     return [["list_all_node_ids", g]] + [["get_node_properties", g, x] for x in DRIFT_NIDS] + [["get_link_properties", g, "n1", "n2"]]
 
 
-def check_history(flavour, h, res, seed=0, handles="one", probe="every"):
+def check_history(flavour, h, res, seed=0, handles="one", probe="every", entry="store", plan=None):
     import random
-    be = L.Backend(flavour, handles=handles, hseed=seed)
+    be = L.Backend(flavour, handles=handles, hseed=seed, entry=entry, plan=plan)
     be.import_keys = colliding_keys(random.Random(seed))
+    try:
+        return _check_history(be, flavour, h, res, seed, handles, probe, entry, plan)
+    finally:
+        be.cleanup()
+
+
+def _check_history(be, flavour, h, res, seed, handles, probe, entry, plan):
+    loaded = {}        # work file -> graph id of the document it held when it was last imported
     universe = set(r[1] for r in h) | set(r[2] for r in h if r[0] == "clone") | {"g1", "g2", "g3", "g4", "zz"}
     clones = []        # (src, dst, step) pairs for the evidence histogram
     drifted = False
 
     def bad(sig, what, k, **kw):
-        res.violation("C04:%s:%s" % (flavour, sig), what, {"flavour": flavour, "history": h[:k + 1], "seed": seed, "handles": handles},
-                      **kw)
+        res.violation("C04:%s:%s" % (flavour, sig), what, {"flavour": flavour, "history": h[:k + 1], "seed": seed, "handles": handles,
+                                                            "entry": entry, "plan": plan}, **kw)
 
     for k, req in enumerate(h):
         op, tgt = req[0], L.target_of(req)
@@ -285,6 +365,19 @@ def check_history(flavour, h, res, seed=0, handles="one", probe="every"):
         rep = be.apply(req)
         after = {g: be.content(g) for g in universe | be.graph_ids()}
         res.count("%s:%s:%s" % (flavour, op, rep[0] if rep[0] == "ok" else rep[1]))
+        if be.last_import is not None:
+            # the import went through an importer entry point on a document: the graph it is addressed to is the one the
+            # caller names, for a direct import the one the DOCUMENT names (req[1] by construction of the document) - never
+            # something remembered about the string, the path or an earlier call; the handle it returns is for that graph
+            via, fmt, slot, rid = be.last_import
+            res.count("%s:import-via:%s:%s:%s" % (flavour, op, via, fmt))
+            if via == "file":
+                if loaded.get(slot, tgt) != tgt:
+                    res.count("%s:work-file-reloaded-with-another-graph:%s" % (flavour, op))
+                loaded[slot] = tgt
+            if rep[0] == "ok" and rid != tgt:
+                bad("import:handle:%s:%s" % (op, via), "%s of a document of graph %s through the importer's %s entry point returned "
+                    "a handle for graph %s" % (op, tgt, via, rid), k, expected=tgt, observed=rid)
         # (0) the observable content of a graph is what the store holds for its id, whichever handle object is asked: a handle
         #     kept across calls (failing ones included) answers every read-only request like a handle made just now
         #     (looked at after every call for the graphs the call names, for every kept handle after every 4th call, after
@@ -365,6 +458,20 @@ def small_alphabet():
     return A
 
 
+def workfile_alphabet():
+    """documents of two graphs (two versions of the first) loaded directly and under a caller's id, and what happens to the
+    loaded graphs in between"""
+    def doc(g, n, direct=True):
+        nodes = [{"NodeID": "n%d" % (i + 1), "Class": "NetworkNode", "Name": "%s%d" % (g, i)} for i in range(n)]
+        for x in nodes:
+            if direct:
+                x["GraphID"] = g
+        return {"nodes": nodes, "edges": [[i, i + 1, {"Class": "connects"}] for i in range(n - 1)]}
+    return [["add_graph_direct", "g1", doc("g1", 2)], ["add_graph_direct", "g2", doc("g2", 3)], ["add_graph_direct", "g1", doc("g1", 3)],
+            ["add_graph", "g2", doc("g2", 2, direct=False)], ["add_graph", "g3", doc("g1", 2)],
+            ["add_node", "g1", "n4", "Link", None], ["delete_graph", "g1"]]
+
+
 HANDLE_PREFIX = [["add_graph", "g1", {"nodes": [{"NodeID": "n1", "Class": "NetworkNode", "Name": "a", "p": "x"}, {"NodeID": "n2", "Class": "Link"}],
                                        "edges": [[0, 1, {"Class": "has"}]]}],
                  ["clone", "g1", "g2"], ["unset_node_property", "g2", "n1", "p"]]
@@ -391,11 +498,12 @@ def oracle(ctx, res, n=None, length=30, depth=None):
     import copy
     import itertools
     hs = histories(ctx, "oracle", n or ctx.scale(250, 2500), length)
-    for hi, (flv, h, hm) in enumerate(hs):
+    for hi, (flv, h, hm, em, pl) in enumerate(hs):
         for flavour in flv:
             res.evaluations += 1
             res.count("%s:handles:%s" % (flavour, hm))
-            be, clones = check_history(flavour, h, res, seed=hi, handles=hm)
+            res.count("%s:entry:%s" % (flavour, em))
+            be, clones = check_history(flavour, h, res, seed=hi, handles=hm, entry=em, plan=pl)
             if clones:
                 res.count("%s:histories-with-clone" % flavour)
             res.nontrivial.add(flavour + L.kind_seq(h))
@@ -423,6 +531,21 @@ def oracle(ctx, res, n=None, length=30, depth=None):
             cnt2 += 1
     res.evaluations += cnt2
     res.count("exhaustive-handles-depth-%d-over-%d-ops" % (depth, len(B)), cnt2)
+    # work files: every history of depth 3 (quick) / 4 (thorough) over documents of two graphs loaded through ONE work file
+    # that is overwritten before each load (import_graph_from_file_direct / import_graph_from_file), GraphML and JSON
+    W = workfile_alphabet()
+    cnt3 = 0
+    for tail in itertools.product(W, repeat=depth):
+        h = [copy.deepcopy(r) for r in tail]
+        if sum(1 for r in h if r[0].startswith("add_graph")) < 2:
+            continue
+        for fmt in L.ENTRY_FMTS:
+            plan = {str(k): ["file", fmt, 0] for k in range(len(h))}
+            for flavour in ("shared", "disjoint"):
+                check_history(flavour, h, res, seed=cnt3, handles="one", probe="last", entry="importer", plan=plan)
+                cnt3 += 1
+    res.evaluations += cnt3
+    res.count("exhaustive-workfile-depth-%d-over-%d-ops" % (depth, len(W)), cnt3)
     res.sample({"flavours": hs[-1][0], "history": hs[-1][1][:5],
                 "checks": "frame on every non-addressed graph, internal ids, import/clone content"})
 
@@ -434,7 +557,8 @@ def search(ctx, res, broken):
 def replay(ctx, payload):
     r = core.Result()
     c = payload["case"]
-    check_history(c["flavour"], c["history"], r, seed=c.get("seed", 0), handles=c.get("handles", "one"))
+    check_history(c["flavour"], c["history"], r, seed=c.get("seed", 0), handles=c.get("handles", "one"),
+                  entry=c.get("entry", "store"), plan=c.get("plan"))
     for v in r.violations:
         print("  ", v["signature"], v["what"])
     return bool(r.violations)
